@@ -40,7 +40,7 @@ StepExact(r, s) ==
            i == FindKwIn(T, D, {KwOf(r.stmt)}, 1, 0)
        IN IF holder.k = "empty" THEN i = 0
           ELSE i # 0 /\ LET e == ClauseEnd(T, D, i)
-                            M == Lex(B, RenderI(B, FALSE, CondToExpr(holder)))
+                            M == Lex(B, RenderI(B, NoOpt, CondToExpr(holder)))
                         IN [j \in 1..(e - i - 1) |-> T[i + j].t] = [j \in DOMAIN M |-> M[j].t]
 
 \* truth table of what was given at the last step, in the fixed order p, q, r over T, F, N
